@@ -11,7 +11,7 @@ class _RL(dict):
 UNIT_RLIMIT = _RL({"div_small": 80, "mul_redc": 80})      # unit -> --rlimit (Verus default is 10; 5x head-room over the measured maximum)
 UNIT_TIMEOUT = {"knuth": 1500, "addmul": 900, "mul_redc": 1200}     # unit -> seconds
 UNIT_EXPECT = {       # unit -> minimum number of verified functions on the unchanged tree (vacuity guard)
-    "core": 31, "add": 29, "kernels": 79, "addmul": 71, "addmul_n": 73, "mul": 51, "divd": 45, "div_small": 235, "knuth": 145, "mul_redc": 118, "basics": 22, "pow": 38, "divw": 54, "modular": 51, "spigot": 44, "gcd": 21, "forward": 57, "invring": 36, "bitlen": 70, "shifts": 121, "recip_table": 2, "gcdext": 64,
+    "core": 31, "add": 29, "kernels": 79, "addmul": 71, "addmul_n": 73, "mul": 51, "divd": 45, "div_small": 235, "knuth": 145, "mul_redc": 118, "basics": 22, "pow": 38, "divw": 54, "modular": 51, "spigot": 44, "gcd": 21, "forward": 57, "invring": 36, "bitlen": 70, "shifts": 121, "recip_table": 2, "gcdext": 64, "gcdw": 33,
 }
 
 COMMON_TRUST = [
@@ -141,6 +141,20 @@ PROPS = {
                     "lemma_shl_result / lemma_shr_result lift limb facts to value*2^s mod 2^BITS, floor(value/2^s) and the exact lost-bits flag",
         trusted=COMMON_TRUST,
         not_decided=["operator overloads and Uint-typed shift amounts beyond the Kani widths", "rotations / arithmetic_shr beyond the Kani widths"],
+    ),
+    "C06": dict(
+        level="other",
+        level_text="Kani proves per width, for ALL values and fully symbolic usize indices: !, &, |, ^ (all operator shapes) act limb-wise with the top limb masked; bit / set_bit (with whole-array frame) / byte / checked_byte "
+                   "address exactly the stated position and out-of-range indices read false / None / write nothing / panic (byte); leading/trailing zeros and ones, count_ones/zeros, bit_len, byte_len, reverse_bits, "
+                   "is_power_of_two, (checked_)next_power_of_two and most_significant_bits equal their definitions over the BITS-wide binary expansion. Verus additionally proves leading_zeros, bit_len and byte_len for ALL widths",
+        level_note="per-width (13 widths for logic/access, 8-11 for the counting functions; loops closed by LIMBS so each harness is complete for its width), not an all-widths proof except leading_zeros/bit_len/byte_len; "
+                   "count_ones at >= 128 bits is decided by an inductive characterisation (count(0) = 0, setting a clear bit adds 1) instead of a direct comparison; must_panic harnesses prove reachability of the panic",
+        technique="Kani contract harnesses on the compiled crate, complete per width + deductive contracts (Verus, all widths) for leading_zeros / bit_len / byte_len",
+        units=["core", "bitlen"],
+        kani=dict(features=None, quick=hs("c06"), thorough=hs("c06"), bounds="widths 0,1,8,60,63,64,65,100,128,129,192,250,256 (per family see kani/src/c06.rs); all values; all usize indices"),
+        explanation="harness-level contracts with bit-by-bit oracles",
+        trusted=COMMON_TRUST,
+        not_decided=["widths other than the listed ones (except leading_zeros, bit_len, byte_len)"],
     ),
     "C07": dict(
         level="other",
@@ -284,28 +298,32 @@ PROPS = {
     "C10": dict(
         level="proof",
         level_text="Verus proves reduce_mod, add_mod and pow_mod for every BITS/LIMBS and every modulus (0 for m = 0; pow_mod 0 for m <= 1): canonical residues in [0, m), "
-                   "add_mod without intermediate overflow (carry-out case), pow_mod by the square-and-multiply invariant modulo m",
-        level_note="ASSUMED: mul_mod's contract (= a*b mod m; its body reinterprets [[u64;2];LIMBS] through a raw pointer, outside Verus; the addmul and div kernels it calls are under contract); operators >=, %=, -=, >>= (C20); "
-                   "NOT decided by proof: inv_mod (Lehmer-based; Kani at 4/8 bits only)",
-        technique="deductive contracts (Verus, all widths) + Kani at tiny widths for mul_mod / inv_mod",
-        units=["core", "basics", "add", "modular", "gcdext"],
-        kani=dict(features=None, quick=hs("c10", None, r"gcd|lcm"), thorough=hs("c10", None, r"gcd|lcm"), bounds="tiny widths (4-8 bits), see kani/src/c10.rs"),
-        explanation="postconditions over val() with vstd's modular-arithmetic lemma library",
+                   "add_mod without intermediate overflow (carry-out case), pow_mod by the square-and-multiply invariant modulo m; and inv_mod (algorithms::inv_mod and the Uint wrapper): Some(x) with x < m and "
+                   "a*x = 1 (mod m) exactly when m >= 2 and gcd(a, m) = 1, None otherwise - through the Lehmer loop with the Euclidean fallback, implicit-sign cofactor in wrapping arithmetic and the final sign patch",
+        level_note="ASSUMED: mul_mod's contract (= a*b mod m; its body reinterprets [[u64;2];LIMBS] through a raw pointer, outside Verus; the addmul and div kernels it calls are under contract; Kani decides it at 4 bits); "
+                   "the Lehmer matrix contract of lib/lehmer.rs (LehmerMatrix::from / apply: exact map to a later remainder pair, determinant +-1, top row <= bottom row; see C12); operators >=, %=, -=, >>=, /, *, + on Uint (C20)",
+        technique="deductive contracts (Verus, all widths) + Kani at tiny widths for mul_mod and as counterexample source",
+        units=["core", "basics", "add", "modular", "gcdext", "gcdw"],
+        kani=dict(features=None, quick=hs("c10", None, r"gcd|lcm"), thorough=hs("c10", None, r"gcd|lcm"), bounds="tiny widths (2-8 bits) and reduced add_mod at 64..192 bits, see kani/src/c10.rs"),
+        explanation="postconditions over val() with vstd's modular-arithmetic lemma library; inv_mod: ghost cofactor magnitudes T0 <= T1 with T1*a + T0*b = m, a = +-T0*n + ka*m, stored cofactors = signed values mod 2^BITS",
         trusted=COMMON_TRUST,
-        not_decided=["mul_mod body (raw pointer reinterpretation)", "inv_mod beyond 8 bits"],
+        not_decided=["mul_mod body (raw pointer reinterpretation) beyond 4 bits", "LehmerMatrix construction (assumed contract)"],
     ),
     "C12": dict(
         level="other",
-        level_text="Verus proves the gcd loop (initial swap, Lehmer step via apply, Euclidean fallback a %= b; swap, termination by b) returns Euclid's function sgcd(a, b), and that sgcd is the greatest common divisor "
-                   "(divides both; every common divisor divides it) - modular over the ASSUMED contract of LehmerMatrix::from/apply, which is exactly the property's last sentence; Kani checks gcd/lcm/gcd_extended at 4-8 bits",
-        level_note="the Lehmer matrix construction (from_u64_prefix, from_u128_prefix, from: Jebelean's exactness conditions over up to 46 symbolic u64 divisions) is ASSUMED, not derived - a change inside matrix.rs is noticed only "
-                   "by the tiny-width Kani harnesses; gcd_extended's and inv_mod's sign bookkeeping and lcm are Kani-only (4-8 bits)",
-        technique="deductive contract for the loop (Verus) relative to an assumed matrix contract + Kani at tiny widths",
-        units=["core", "gcd", "gcdext"],
-        kani=dict(features=None, quick=hs("c10", r"gcd|lcm"), thorough=hs("c10", r"gcd|lcm"), bounds="4-8 bits"),
-        explanation="invariant gcd(a, b) = gcd(a0, b0), a >= b; decreases b",
+        level_text="Verus proves, for every width: the gcd loop (initial swap, Lehmer step via apply, Euclidean fallback, termination) returns Euclid's function sgcd, which is proved to be the greatest common divisor "
+                   "(divides both; every common divisor divides it); gcd_extended returns g = gcd and cofactors with a*x - b*y = g (sign) resp. b*y - a*x = g modulo 2^BITS (exact integer Bezout rows, stored cofactors as residues, "
+                   "final negation and swap); lcm returns Some(a*b/gcd) exactly when that value is < 2^BITS (Some(0) if either is 0) and None otherwise; the Uint wrappers forward. All of this is modular over the ASSUMED "
+                   "contract of LehmerMatrix::from/apply, which contains the property's last sentence; Kani checks gcd/lcm/gcd_extended by enumeration at 3-4 bits",
+        level_note="the Lehmer matrix construction (from_u64, from_u64_prefix, from_u128_prefix, from: Jebelean's exactness conditions over up to 46 symbolic u64 divisions) is ASSUMED, not derived - a change inside matrix.rs "
+                   "is noticed only by the tiny-width Kani enumerations (which never reach the >64-bit prefix paths): hence level 'other', not 'proof'. lcm uses a declared rewrite of Option::unwrap_or_default to "
+                   "unwrap_or(<Uint as Default>::default()), with Default::default extracted and proved to be ZERO",
+        technique="deductive contracts for the loops and wrappers (Verus, all widths) relative to an assumed matrix contract + Kani enumeration at tiny widths",
+        units=["core", "gcd", "gcdext", "gcdw"],
+        kani=dict(features=None, quick=hs("c10", r"gcd|lcm"), thorough=hs("c10", r"gcd|lcm"), bounds="3-4 bits, all pairs"),
+        explanation="gcd: invariant gcd(a, b) = gcd(a0, b0), a >= b; decreases b. gcd_extended: a = S0*A + T0*B, b = S1*A + T1*B over the integers, stored s/t = S/T mod 2^BITS",
         trusted=COMMON_TRUST,
-        not_decided=["Lehmer matrix construction (matrix.rs)", "gcd_extended / inv_mod / lcm above 8 bits"],
+        not_decided=["LehmerMatrix::from / from_u64 / from_u64_prefix / from_u128_prefix / compose (assumed contract)", "LehmerMatrix::apply (assumed: evaluates the signed map modulo 2^BITS)"],
     ),
     "C19": dict(
         level="other",
